@@ -10,7 +10,10 @@ CLAIMED = {
         "text": "Theorems for ALL stages, place lists, rows and generator histories that every row is a permutation "
                 "of the start row (permute_ok, generator invariants), about a Gallina model of permute / the row "
                 "generators / the Bot; the model is compared with the implementation on every run (exhaustive place "
-                "sets up to stage 10 quick / 16 thorough, random generator histories).",
+                "sets up to stage 10 quick / 16 thorough, random generator histories). Cover padding gives a complete row "
+                "of the tower whenever the stage fits, also after a size change DURING a touch (whatever is generated "
+                "next - opening row, closing rounds, method row - is a complete row of the new tower); tied by Bot-level "
+                "sessions (size gate, start/stop, server mode, resized mid-touch).",
         "design_ref": "DESIGN.md section 3, C01", "note": TB,
         "technique": "Coq proof by induction (Permutation invariant) + in-kernel differential correspondence",
     },
